@@ -171,7 +171,7 @@ func (x *Exec) goLiteral(pkg *types.Package, t types.Type, v Value) (string, boo
 // modelInputs asks the solver for the values of the function's inputs in a
 // model of the failed obligation, preferring short strings.
 func (x *Exec) modelInputs(ob *Obligation, paramT map[string]types.Type, timeout time.Duration) (map[string]Value, bool) {
-	q := &Query{Assume: ob.Assume, Goal: ob.Goal}
+	q := buildQuery(ob)
 	x.instantiateSpecs(q, x.specFuel)
 	names := make([]string, 0, len(ob.Inputs))
 	for n := range ob.Inputs {
